@@ -5,6 +5,7 @@ Inv(sub, format, massive, file, dryrun, exts, target, strict, stray, unknown, do
   [sub |-> sub, format |-> format, massive |-> massive, file |-> file, dryrun |-> dryrun, exts |-> exts,
    target |-> target, strict |-> strict, stray |-> stray, unknown |-> unknown, doc |-> doc, stdout |-> stdout]
 Docs == {"wf", "malformed", "empty", "hostile"}
+DotDocs == {"dot"}
 Files == {"stdin", "dash", "existing", "missing"}
 Outs == {"pipe", "closed", "full"}
 OutputInvs == {Inv("output", f, m, file, FALSE, {}, "", FALSE, st, un, d, o) :
@@ -16,9 +17,12 @@ MkdirInvs  == {Inv("mkdir", "", m, file, dr, e, t, FALSE, st, un, d, o) :
 VerifyInvs == {Inv("verify", "", FALSE, file, FALSE, {}, t, s, st, un, d, "pipe") :
                  file \in {"stdin", "existing", "missing"}, t \in {"", "sub"}, s \in B, st \in B, un \in B, d \in Docs}
 TemplateInvs == {Inv("template", "", FALSE, "stdin", FALSE, {}, "", FALSE, st, FALSE, "wf", o) : st \in B, o \in Outs}
-AllInvs == OutputInvs \cup MkdirInvs \cup VerifyInvs \cup TemplateInvs
+DotInvs == {Inv("output", "", FALSE, "stdin", FALSE, {}, "", FALSE, FALSE, FALSE, "dot", "pipe")}
+           \cup {Inv("mkdir", "", FALSE, "stdin", FALSE, {}, t, FALSE, FALSE, FALSE, "dot", "pipe") : t \in {"", "sub"}}
+           \cup {Inv("verify", "", FALSE, "stdin", FALSE, {}, t, s, FALSE, FALSE, "dot", "pipe") : t \in {"", "sub"}, s \in B}
+AllInvs == OutputInvs \cup MkdirInvs \cup VerifyInvs \cup TemplateInvs \cup DotInvs
 \* second and third steps of a sequence: the same well-formed document, mkdir / verify variants
 Follow == {Inv("mkdir", "", FALSE, "stdin", dr, {".x"}, "", FALSE, FALSE, FALSE, "wf", "pipe") : dr \in B}
-          \cup {Inv("verify", "", FALSE, "stdin", FALSE, {}, "", s, FALSE, FALSE, "wf", "pipe") : s \in B}
+          \cup {Inv("verify", "", FALSE, "stdin", FALSE, {}, "", s, FALSE, FALSE, d, "pipe") : s \in B, d \in {"wf", "dot"}}
 FirstOfSeq == {i \in AllInvs : i.sub \in {"mkdir", "verify"} /\ i.doc = "wf" /\ i.target = "" /\ ~i.stray /\ ~i.unknown /\ i.file = "stdin" /\ i.exts = {".x"} /\ i.stdout = "pipe"}
 =============================================================================
